@@ -152,6 +152,22 @@ def F17Chain : PathType → PathControlPoint P → List (PathControlPoint P) →
       ((t = T ∧ t ≠ PathType.perfect ∧ endsSeg rest = false) →
         t ≠ PathType.catmull ∧ Pos.eq b.pos a.pos = false) ∧ F17Chain t b rest
 
+instance decF17Chain : ∀ (T : PathType) (a : PathControlPoint P) (rest : List (PathControlPoint P)),
+    Decidable (F17Chain T a rest)
+  | _, _, [] => isTrue trivial
+  | T, a, b :: rest =>
+    match hb : b.pathType with
+    | none =>
+      have : Decidable (F17Chain T b rest) := decF17Chain T b rest
+      decidable_of_iff ((Pos.eq b.pos a.pos = true → a.pathType.isSome = true →
+          rest.isEmpty = true ∨ nextTyped rest = true) ∧ F17Chain T b rest)
+        (by rw [F17Chain]; simp only [hb, List.isEmpty_iff])
+    | some t =>
+      have : Decidable (F17Chain t b rest) := decF17Chain t b rest
+      decidable_of_iff (((t = T ∧ t ≠ PathType.perfect ∧ endsSeg rest = false) →
+          t ≠ PathType.catmull ∧ Pos.eq b.pos a.pos = false) ∧ F17Chain t b rest)
+        (by rw [F17Chain]; simp only [hb])
+
 /-- `F17Chain` is necessary for `ChainOK`. -/
 theorem chainOK_f17 (rest : List (PathControlPoint P)) :
     ∀ (T : PathType) (a : PathControlPoint P), ChainOK T a rest → F17Chain T a rest := by
